@@ -380,7 +380,7 @@ class Runner:
             run = runs[k]
             samples.append({"run": run["index"], "files": {n: t[:1200] for n, t in run["files"].items()}, "ops": run["ops"], "hash_seed": run["hash"],
                             "style": run["info"]["style"], "atoms": run["meta"]["atoms"], "skeletons": run["meta"]["skeletons"]})
-        zero_probes = sorted(a for a in generator.ATOMS if self.stats.get("atom_placed:%s" % a, 0) == 0)
+        zero_probes = sorted(a for a in list(generator.ATOMS) + ["asynq:" + x for x in generator.ASYNQ_ATOMS] if self.stats.get("atom_placed:%s" % a, 0) == 0)
         evidence = {
             "property_id": PROP, "tier": self.tier.name, "seed": self.seed, "level": "exploration", "wall_s": round(wall, 2), "violations": len(violations),
             "coverage": {
